@@ -79,7 +79,8 @@ def hostile(rng, big=False):
         # a long run of undated lines between dated ones (> 500 either side)
         n = rng.choice([520, 1100]) if big else rng.choice([3, 40])
         head = G.gen_log(rng, 30, undated_p=0.0)
-        mid = b''.join(b'dump line %d\n' % i for i in range(n))
+        mid = b''.join(('dump \u20ac\u20ac line %d \u20ac\n' % i).encode()
+                       for i in range(n))
         tail = G.gen_log(rng, 3, undated_p=0.0,
                          t0=G.datetime(2022, 1, 13, 0, 0, 0))
         return head + mid + tail, f'undated-run-{n}'
@@ -243,6 +244,66 @@ def judge(chk, recipe, meta, o, cases, wants, metas):
                 return
 
 
+def position_probe(chk, items):
+    """ C11's third clause on hostile content: whatever the content, a since
+    constraint leaves the file at 0, at EOF, or just after a line feed """
+    import io
+    import sk_child
+    sk_child._setup()
+    from searchkit.constraints import SearchConstraintSearchSince
+    n = 0
+    # contents built to drive the seek through each of its fallback paths
+    # (too many undated lines after a date was seen, no timestamp at all,
+    # nothing in the window, an over-long line, undated lines at both ends)
+    old = b''.join(b'2022-01-09 %02d:%02d:00 old \xe2\x82\xac line\n'
+                   % (i // 60, i % 60) for i in range(300))
+    new = b''.join(b'2022-01-13 00:%02d:00 new \xe2\x82\xac line\n' % i
+                   for i in range(5))
+    junk = b''.join(('dump \u20ac\u20ac %d \u20ac\n' % i).encode()
+                    for i in range(1300))
+    fixed = [('too-many-undated-after-date', old + junk + new),
+             ('too-many-undated-first', junk + old + new),
+             ('no-timestamps', junk), ('all-old', old),
+             ('undated-both-ends', junk[:900] + old + new + junk[:900]),
+             ('long-line-in-window', old + b'2022-01-13 00:00:00 '
+              + b'L' * 1100000 + b'\n' + new)]
+    c1 = {'current': '2022-01-13 12:00:00', 'days': 0, 'hours': 24}
+    items = list(items) + [
+        ({'constraints': [c1]},
+         {'class': nm, 'data': data, 'wide': False}) for nm, data in fixed]
+    for recipe, meta in items:
+        if not recipe['constraints'] or not meta['data']:
+            continue
+        M = sk_child._matcher_wide() if meta['wide'] else sk_child._matcher()
+        c0 = recipe['constraints'][0]
+        kw = {} if c0.get('use_defaults') else {
+            'days': c0.get('days', 0), 'hours': c0.get('hours', 24)}
+        c = SearchConstraintSearchSince(current_date=c0['current'],
+                                        ts_matcher_cls=M, **kw)
+        fd = io.BytesIO(meta['data'])
+        fd.name = 'probe'
+        try:
+            c.apply_to_file(fd)
+            pos = fd.tell()
+        except Exception as exc:  # noqa
+            chk.violation(f"other-failure {type(exc).__name__} in "
+                          f"apply_to_file class={meta['class']}",
+                          {'class': meta['class'], 'constraint': c0,
+                           'content_head': meta['data'][:200].decode(
+                               'latin-1')})
+            continue
+        n += 1
+        data = meta['data']
+        if not (pos == 0 or pos == len(data) or data[pos - 1:pos] == b'\n'):
+            chk.violation(f"position-not-a-line-start class={meta['class']}",
+                          {'class': meta['class'], 'constraint': c0,
+                           'position': pos, 'length': len(data),
+                           'bytes_around': data[max(0, pos - 20):pos + 20]
+                           .decode('latin-1'),
+                           'content_head': data[:200].decode('latin-1')})
+    chk.dist('position_probes', n)
+
+
 def run(chk):
     chk.prove(PROPS)
     chk.coverage['rule'] = (
@@ -260,6 +321,7 @@ def run(chk):
     items = []
     for idx in range(n):
         items.append(make_case(chk.rng, base, idx, big=idx < nbig))
+    position_probe(chk, items)
     batches = [items[i:i + 6] for i in range(0, len(items), 6)]
     cases, wants, metas = [], [], []
     nontrivial = 0
